@@ -261,5 +261,12 @@ example : SkelL.wf SolveMainPaths.mN Gen.solveMainBody SolveMainPaths.q0 = true 
     (⟨3, false, false, false⟩, SkelL.Ending.ret) ∈ SkelL.reach SolveMainPaths.mN Gen.solveMainBody SolveMainPaths.q0 ∧
     SkelL.size Gen.solveMainBody > 600 := by decide +kernel
 
+/-- **every `return` of solve_main carries an exit object** (whole-function skeleton, any number of iterations): on every execution
+    Python can take that ends by `return` — the exit at x0, the exit during the initialisation, the final return — `exit_info` is an
+    ExitInformation object, so `solve` finds a flag and a message -/
+theorem C10_src_exit_object_at_return {tr : List String} {e : SkelL.Ending} (hx : SkelL.Exec Gen.solveMainBody tr e) (he : e = .ret) :
+    (SolveMainPaths.mE.run ⟨false, false, false⟩ tr).infeasible = true ∨ (SolveMainPaths.mE.run ⟨false, false, false⟩ tr).known = true :=
+  SolveMainPaths.exit_at_return hx he
+
 end C10
 end Dfols
